@@ -261,6 +261,28 @@ fn stray_cfg(name: &str) -> Cfg {
     c
 }
 
+/// a contract in the CURRENT layout whose cw2 record still names an earlier release with that same
+/// layout (0.13.1 .. 0.15.x): a user escrows, a stranger sends stray coins straight to the contract,
+/// and Migrate runs at every state. The books must not move (seeded C12_r11_2: the 0.13.0
+/// reconciliation applied to a 0.13.1 store turned stray coins into channel balance).
+fn restamped_cfg(name: &str, ver: &'static str) -> Cfg {
+    let mut c = Cfg::base(name);
+    c.channels = 1;
+    c.restamp = Some(ver);
+    c.migrate_limits = vec![None, Some(3)];
+    c.funds = vec![(A, N0, 1), (X, N0, 1)];
+    c.senders = vec![A];
+    c.donors = vec![X];
+    c.send_toks = vec![N0];
+    c.send_amounts = vec![1];
+    c.proper = vec![Base::Tok(N0)];
+    c.bad = vec![Den::Foreign(Base::Tok(N0))];
+    c.recv_amounts = vec![1, 2];
+    c.fault_bound = 0;
+    c.raws = vec![0];
+    c
+}
+
 /// storage of version 0.13.0 with TWO channels that both carry the same denominations. The real
 /// migration refuses it ("multiple channels open"), which is fine; if a migration accepts it, the
 /// books it leaves behind must still be covered channel by channel.
@@ -414,6 +436,7 @@ fn configs(prop: &str, thorough: bool) -> Vec<(Cfg, Option<usize>)> {
             v.push(v2_two_channels_cfg("C11/upgrade/v2-0.13.0-two-channels-same-denoms"));
             v.push(drained_cfg("C11/upgrade/v2-0.13.0-drained-denom-with-send-in-flight", "0.13.0", false));
             v.push(stray_cfg("C11/upgrade/v2-0.13.0-stray-funds-and-second-migrate"));
+            v.push(restamped_cfg("C11/upgrade/current-layout-stamped-0.13.1-stray-funds", "0.13.1"));
             v.push(drained_next_to_held_cfg("C11/upgrade/v2-0.13.0-drained-denom-next-to-held-denom"));
             v.push(u64_two_channels_cfg("C11/edge/u64-boundary/2ch-same-denom"));
             v.push(case_pair_cfg("C11/native/2ch-denoms-differing-in-case"));
@@ -467,6 +490,9 @@ fn configs(prop: &str, thorough: bool) -> Vec<(Cfg, Option<usize>)> {
             v.push(v2_two_channels_cfg("C12/upgrade/v2-0.13.0-two-channels-same-denoms"));
             v.push(drained_cfg("C12/upgrade/v2-0.13.0-drained-denom-with-send-in-flight", "0.13.0", false));
             v.push(stray_cfg("C12/upgrade/v2-0.13.0-stray-funds-and-second-migrate"));
+            for ver in if thorough { vec!["0.13.1", "0.13.2", "0.14.0", "0.15.1"] } else { vec!["0.13.1", "0.14.0"] } {
+                v.push(restamped_cfg(&format!("C12/upgrade/current-layout-stamped-{ver}-stray-funds"), ver));
+            }
             v.push(drained_next_to_held_cfg("C12/upgrade/v2-0.13.0-drained-denom-next-to-held-denom"));
             v.push(drained_cfg("C12/upgrade/v1-0.11.1-drained-denom-with-send-in-flight", "0.11.1", true));
             {
